@@ -382,21 +382,22 @@ class SQLLineageHolder(ColumnLineageMixin):
     ) -> DiGraph:
         g = DiGraph()
         for holder in args:
-            g = nx.compose(g, holder.graph)
-            if holder.drop:
-                for table in holder.drop:
-                    if g.has_node(table) and g.degree[table] == 0:
-                        g.remove_node(table)
-            elif holder.rename:
-                renames = holder.rename
-                # the rename pairs themselves are not lineage, drop them before any table gets relabeled
-                g.remove_edges_from(renames)
-                for table_old, table_new in renames:
+            if holder.rename:
+                # a rename statement carries no lineage of its own, its pairs must not enter the graph as edges
+                for table_old, table_new in holder.rename:
+                    if not g.has_node(table_old):
+                        continue
                     g = nx.relabel_nodes(g, {table_old: table_new})
                     if g.has_edge(table_new, table_new):
                         g.remove_edge(table_new, table_new)
                     if g.degree[table_new] == 0:
                         g.remove_node(table_new)
+                continue
+            g = nx.compose(g, holder.graph)
+            if holder.drop:
+                for table in holder.drop:
+                    if g.has_node(table) and g.degree[table] == 0:
+                        g.remove_node(table)
             else:
                 read, write = holder.read, holder.write
                 if len(read) > 0 and len(write) == 0:
